@@ -123,7 +123,11 @@ pub fn dispatch(fs: &[String]) -> String {
                         out.push(format!("T{}", value));
                     }
                 }
-                Value::Dynamic { expression, .. } => pieces(expression, src, &mut out),
+                // (a value that is one string literal binding, `{{ " " }}`, is told apart from static text: piece `L`)
+                Value::Dynamic { expression, .. } => match &**expression {
+                    Expression::LitStr { value, .. } => out.push(format!("L{}", value)),
+                    e => pieces(e, src, &mut out),
+                },
                 _ => out.push("?".to_string()),
             }
             let mut st = tc::stringify::Stringifier::new(String::new(), "p", src);
